@@ -355,6 +355,9 @@ func init() {
 		ID:    "C20",
 		Level: "exploration",
 		Race:  true,
+		// a concurrent run normally takes well under a second; if no case completes for 120 s (writers or a dump blocked
+		// for good) the worker stops and the driver reports the case
+		StallSeconds: 120,
 		Rule: "sequential histories: a root zap.Logger on MemLogger.GetCore() and 0..4 loggers derived with With(fields) from the root or from each other, created before any write, mid-stream or after the ring wrapped; writes interleaved through all loggers, each with a unique id; totals 0, 1, 2, 17, capacity-1, capacity, capacity+1, 2*capacity, 2*capacity+3, 5000 and random " +
 			"(capacity read from logging.BufferSize). After every 257th write, at the capacity boundary and at the end GetLogs() must equal exactly the last min(total, capacity) ids, newest first; WriteLogs at detail 1..3 must print the same ids in the same order. " +
 			"concurrent histories (race binary): 2..8 goroutines write unique ids through a mix of root and derived loggers (some derived mid-stream), GOMAXPROCS in {1,2,4,16}; at quiescence exactly min(total, capacity) distinct written entries, per writer a suffix of its writes in newest-first order; in half of the runs GetLogs/WriteLogs run concurrently and every snapshot must be duplicate-free, " +
@@ -363,6 +366,6 @@ func init() {
 		Run:   runC20,
 		Floors: map[string]int64{"sequential_histories": 4500, "snapshots_compared": 10000, "derived_loggers": 5000, "histories_above_capacity": 1500, "concurrent_runs": 200, "concurrent_runs_above_capacity": 50,
 			"concurrent_runs_with_snapshots": 90, "entries_written": 3000000},
-		Assumptions: []string{"capacity is read from the exported constant logging.BufferSize", "race freedom = no report from the Go race detector on the interleavings that occurred"},
+		Assumptions: []string{"capacity is read from the exported constant logging.BufferSize", "a case in which writers or GetLogs/WriteLogs do not return for 120 s (normal: milliseconds) is reported as a violation: the buffer no longer returns its entries", "race freedom = no report from the Go race detector on the interleavings that occurred"},
 	})
 }
